@@ -74,7 +74,7 @@ def sstPath : String := Facts.C12.sstPath
 
 structure Inv (st : St) : Prop where
   core : Core st.temp st.disk st.next
-  sst1 : ∀ id, st.sstTemp = some id → load st.temp sstKey = some id
+  sst1 : ∀ id, st.sstTemp = some id → load st.temp sstKey = some id ∨ (load st.temp sstKey = none ∧ id ∉ keys st.disk)
   sst0 : st.sstTemp = none → load st.temp sstKey = none
 
 theorem Inv.init : Inv {} := by
@@ -82,12 +82,22 @@ theorem Inv.init : Inv {} := by
   · intro id h; simp at h
   · intro _; rfl
 
+/-- erasing a binding / a file keeps the weak link between sharedStringTemp and its tempFiles entry -/
+theorem sst1_erase {t : Map Nat} {d : Disk} {j : Nat} (n : String) (id : Nat)
+    (h : load t sstKey = some j ∨ (load t sstKey = none ∧ j ∉ keys d)) (hn : n ≠ sstKey) :
+    load (erase t n) sstKey = some j ∨ (load (erase t n) sstKey = none ∧ j ∉ keys (erase d id)) := by
+  have hs : sstKey ≠ n := fun e => hn e.symm
+  rcases h with h | ⟨h1, h2⟩
+  · left; rw [load_erase_ne _ hs]; exact h
+  · right
+    refine ⟨by rw [load_erase_ne _ hs]; exact h1, fun hm => h2 (((erase_sublist d id).map _).subset hm)⟩
+
 /-- a step that only touches Pkg / flags keeps the invariant -/
 theorem Inv.frame {st st' : St} (i : Inv st) (h1 : st'.temp = st.temp) (h2 : st'.disk = st.disk)
     (h3 : st'.next = st.next) (h4 : st'.sstTemp = st.sstTemp) : Inv st' := by
   constructor
   · rw [h1, h2, h3]; exact i.core
-  · rw [h1, h4]; exact i.sst1
+  · rw [h1, h2, h4]; exact i.sst1
   · rw [h1, h4]; exact i.sst0
 
 /-! ### Close -/
